@@ -76,11 +76,11 @@ class SyncEngine(BaseEngine):
                     raise
         finally:
             self._processing.release()
-        # Another thread may have enqueued a trigger after the loop above saw the queue empty and
-        # before the lock was released: it found the lock taken and returned, so that trigger is
-        # ours to process.
-        if self._external_queue:
-            self.processing_loop()
+            # Another thread may have enqueued a trigger after the loop above saw the queue empty
+            # (or, when a callback failed, after the queue was cleared) and before the lock was
+            # released: it found the lock taken and returned, so that trigger is ours to process.
+            if self._external_queue:
+                self.processing_loop()
         return first_result if first_result is not self._sentinel else None
 
     def _trigger(self, trigger_data: TriggerData):
